@@ -256,6 +256,12 @@ def world_order_cases(ctx):
             for l, nm in zip(inst, rng.sample(worlds.ODD_LAYER_NAMES, min(len(inst), len(worlds.ODD_LAYER_NAMES)))):
                 l["name"] = nm
         o = {"verbose": rng.choice([0, 1]), "processes": 1, "argseed": rng.randint(0, 10 ** 6)}
+        if i % 3 == 1:
+            # the search path given relative to the start directory, and tests that leave the process elsewhere before
+            # the remaining layers are handed to subprocesses
+            for l in non_unit:
+                l["tearDownFaults"] = []
+            worlds.shape_relpath_chdir(rng, w, o)
         cases.append(cw.Case(w, o))
     cases = [c for c in cw.corpus_cases(PROP) if c.opts.get("processes", 1) == 1] + cases
     cw.run_real_cases(ctx, cases)
